@@ -286,7 +286,11 @@ func (t *ipTransport) notifyListener(a *accessory.Accessory, c *characteristic.C
 		bytes, err := ioutil.ReadAll(buffer)
 		bytes = hap.FixProtocolSpecifier(bytes)
 		log.Debug.Printf("%s <- %s", conn.RemoteAddr(), string(bytes))
-		conn.Write(bytes)
+		if c, ok := conn.(*hap.Connection); ok == true {
+			c.WriteEvent(bytes)
+		} else {
+			conn.Write(bytes)
+		}
 	}
 }
 
